@@ -9,11 +9,26 @@ where for<'a> &'a Self: EucRingOps<Self> {}
 
 impl<T> DivRound for T
 where T: Integer, for<'x> &'x T: IntOps<T> {
+    // the integer nearest to self / q, ties rounded away from zero (computed exactly).
     fn div_round(&self, q: &Self) -> Self {
-        let a = self.to_f64().unwrap();
-        let b = q.to_f64().unwrap();
-        let r = (a / b).round();
-        Self::from_f64(r).unwrap()
+        let d = self / q; // truncated
+        let r = self % q; // |r| < |q|, sign of self
+        if r.is_zero() { 
+            return d
+        }
+
+        // 2|r| >= |q|, compared on non-positive values to stay in range.
+        let nr = if r.is_positive() { -r } else { r };
+        let nq = if q.is_positive() { -q.clone() } else { q.clone() };
+        let round_away = nr <= &nq - &nr;
+
+        if !round_away { 
+            d
+        } else if self.is_negative() == q.is_negative() { 
+            d + Self::one()
+        } else { 
+            d - Self::one()
+        }
     }
 }
 
